@@ -107,6 +107,9 @@ def run_shard(acc, prop, tier, seed, shard, nshards, **kw):
         sizes = [0, 1, 9, 10, 11, 29, 30, 31, 40] if tier == "quick" else list(range(0, 41))
         n = 5 if tier == "quick" else 60
         for wi in range(n):
+            from .. import core as _core
+            if _core.skip_world(wi):
+                continue
             rng = sub_rng("n", seed, PROP, tier, shard, wi)
             size = sizes[(shard + wi * nshards) % len(sizes)] if tier == "quick" else rng.choice(sizes)
             rw, created = run_registry(acc, srv, (seed, PROP, tier, shard, wi), size, tier)
